@@ -132,7 +132,7 @@ def bounded(ctx: Ctx):
     # --- UnionFind exhaustive histories
     n = 3
     ops = [("u", a, b) for a in range(n) for b in range(n)] + [("f", a) for a in range(n)]
-    L = 3 if ctx.quick else 4
+    L = 3 if ctx.quick else 5
     for ln in range(1, L + 1):
         for hist in itertools.product(ops, repeat=ln):
             bad, merged = run_uf_history(n, hist)
@@ -144,7 +144,7 @@ def bounded(ctx: Ctx):
                               f"step {b[0]}: {b[1]}")
     ctx.scope("UnionFind exhaustive", n=n, max_len=L, ops=len(ops), exhaustive=True)
     # --- UnionFind random longer histories
-    R = 600 if ctx.quick else 8000
+    R = 600 if ctx.quick else 60000
     for _ in range(R):
         n = rng.randint(2, 12)
         hist = []
@@ -185,7 +185,7 @@ def bounded(ctx: Ctx):
                                       {"kind": "ft", "init": list(init), "history": [list(h) for h in hist]}, f"step {b[0]}: {b[1]}")
     ctx.scope("FenwickTree exhaustive", n="0..3", init_values=vals, deltas=deltas, max_len=2 if ctx.quick else 3, exhaustive=True)
     # --- Fenwick random, sizes that exercise many bit patterns, both constructors
-    R = 400 if ctx.quick else 5000
+    R = 400 if ctx.quick else 40000
     for r in range(R):
         n = rng.randint(0, 70)
         init = n if r % 3 == 0 else [rng.randint(-5, 5) for _ in range(n)]
